@@ -163,7 +163,99 @@ theorem readFileInfo_eq_expected (l : Bytes) :
         · simp [h4, Option.map_eq_bind, Function.comp_def]
         simp [h1, h2, h3, h4]
 
+/-! ### `ModelFileBlock` with the two instantiations of the generic `ModelMemorySizes<T>` -/
+
+namespace Expected
+def modelMemorySizes (p : Prim) : Layout :=
+  .mk none .none [
+    .mk "stack_size" none .none 0 (.prim p) 0 0,
+    .mk "runtime_size" none .none 0 (.prim p) 0 0,
+    .mk "vertex_buffer_size" none .none 0 (.array (.lit 3) (.prim p)) 0 0,
+    .mk "edge_geometry_vertex_buffer_size" none .none 0 (.array (.lit 3) (.prim p)) 0 0,
+    .mk "index_buffer_size" none .none 0 (.array (.lit 3) (.prim p)) 0 0] true
+def modelFileBlock (m32 m16 : Layout) : Layout :=
+  .mk none .none [
+    .mk "num_blocks" none .none 0 (.prim .u32) 0 0,
+    .mk "num_used_blocks" none .none 0 (.prim .u32) 0 0,
+    .mk "version" none .none 0 (.prim .u32) 0 0,
+    .mk "uncompressed_size" none .none 0 (.struct m32) 0 0,
+    .mk "compressed_size" none .none 0 (.struct m32) 0 0,
+    .mk "offset" none .none 0 (.struct m32) 0 0,
+    .mk "index" none .none 0 (.struct m16) 0 0,
+    .mk "num" none .none 0 (.struct m16) 0 0,
+    .mk "vertex_declaration_num" none .none 0 (.prim .u16) 0 0,
+    .mk "material_num" none .none 0 (.prim .u16) 0 0,
+    .mk "num_lods" none .none 0 (.prim .u8) 0 0,
+    .mk "index_buffer_streaming_enabled" none .none 0 (.prim .u8) 0 0,   -- map = read_bool_from::<u8>
+    .mk "edge_geometry_enabled" none .none 0 (.prim .u8) 0 1] true
+end Expected
+
+theorem modelMemorySizes_u32_generated :
+    BinrwDat.modelMemorySizes_u32.normalizeAt .little = (Expected.modelMemorySizes .u32).normalizeAt .little := rfl
+theorem modelMemorySizes_u16_generated :
+    BinrwDat.modelMemorySizes_u16.normalizeAt .little = (Expected.modelMemorySizes .u16).normalizeAt .little := rfl
+theorem modelFileBlock_generated :
+    BinrwDat.modelFileBlock.normalizeAt .little =
+      (Expected.modelFileBlock BinrwDat.modelMemorySizes_u32 BinrwDat.modelMemorySizes_u16).normalizeAt .little := rfl
+
+def mms32Of : List Value → Option (Dat.MMS UInt32)
+  | [.w32 .u32 s, .w32 .u32 r, .list [.w32 .u32 v0, .w32 .u32 v1, .w32 .u32 v2],
+     .list [.w32 .u32 e0, .w32 .u32 e1, .w32 .u32 e2], .list [.w32 .u32 i0, .w32 .u32 i1, .w32 .u32 i2]] =>
+    some ⟨s, r, ⟨v0, v1, v2⟩, ⟨e0, e1, e2⟩, ⟨i0, i1, i2⟩⟩
+  | _ => none
+def mms16Of : List Value → Option (Dat.MMS UInt16)
+  | [.w16 .u16 s, .w16 .u16 r, .list [.w16 .u16 v0, .w16 .u16 v1, .w16 .u16 v2],
+     .list [.w16 .u16 e0, .w16 .u16 e1, .w16 .u16 e2], .list [.w16 .u16 i0, .w16 .u16 i1, .w16 .u16 i2]] =>
+    some ⟨s, r, ⟨v0, v1, v2⟩, ⟨e0, e1, e2⟩, ⟨i0, i1, i2⟩⟩
+  | _ => none
+
+/-- the two `map = read_bool_from::<u8>` closures (`x == 1`) are applied here -/
+def modelFileBlockOf : List Value → Option Dat.ModelFileBlock
+  | [.w32 .u32 nb, .w32 .u32 nub, .w32 .u32 ver, .struct us, .struct cs, .struct off, .struct idx, .struct num,
+     .w16 .u16 vdn, .w16 .u16 mn, .w8 .u8 lods, .w8 .u8 ibs, .w8 .u8 ege] =>
+    (mms32Of us).bind fun us => (mms32Of cs).bind fun cs => (mms32Of off).bind fun off =>
+    (mms16Of idx).bind fun idx => (mms16Of num).bind fun num =>
+      some ⟨nb, nub, ver, us, cs, off, idx, num, vdn, mn, lods, ibs == 1, ege == 1⟩
+  | _ => none
+
+theorem readMMS32_eq_expected (l : Bytes) :
+    Dat.readMMS u32le l = via mms32Of (Layout.read .little (Expected.modelMemorySizes .u32) l) := by
+  binrw_norm [Dat.readMMS, Dat.readTri, Expected.modelMemorySizes]
+  rfl
+theorem readMMS16_eq_expected (l : Bytes) :
+    Dat.readMMS u16le l = via mms16Of (Layout.read .little (Expected.modelMemorySizes .u16) l) := by
+  binrw_norm [Dat.readMMS, Dat.readTri, Expected.modelMemorySizes]
+  rfl
+
+set_option maxHeartbeats 1600000 in
+theorem readModelFileBlock_eq_expected (l : Bytes) :
+    Dat.readModelFileBlock l =
+      via modelFileBlockOf (Layout.read .little
+        (Expected.modelFileBlock (Expected.modelMemorySizes .u32) (Expected.modelMemorySizes .u16)) l) := by
+  binrw_norm! [Dat.readModelFileBlock, Dat.readMMS, Dat.readTri, Expected.modelFileBlock, Expected.modelMemorySizes]
+  rfl
+
+theorem modelFileBlock_congr (e : Endian) {a1 a2 b1 b2 : Layout}
+    (ha : a1.normalizeAt e = a2.normalizeAt e) (hb : b1.normalizeAt e = b2.normalizeAt e) :
+    Layout.read e (Expected.modelFileBlock a1 b1) = Layout.read e (Expected.modelFileBlock a2 b2) := by
+  funext l
+  simp only [Expected.modelFileBlock, Layout.read, Layout.readFields, Field.read, Kind.read, Option.getD,
+    Layout.read_congr e ha, Layout.read_congr e hb, Nat.zero_sub]
+
 /-! ### the tie: model readers = interpretation of the regenerated descriptors -/
+
+theorem readMMS32_eq_generated (l : Bytes) :
+    Dat.readMMS u32le l = via mms32Of (Layout.read endian BinrwDat.modelMemorySizes_u32 l) :=
+  endian_generated ▸ tie readMMS32_eq_expected modelMemorySizes_u32_generated l
+theorem readMMS16_eq_generated (l : Bytes) :
+    Dat.readMMS u16le l = via mms16Of (Layout.read endian BinrwDat.modelMemorySizes_u16 l) :=
+  endian_generated ▸ tie readMMS16_eq_expected modelMemorySizes_u16_generated l
+theorem readModelFileBlock_eq_generated (l : Bytes) :
+    Dat.readModelFileBlock l = via modelFileBlockOf (Layout.read endian BinrwDat.modelFileBlock l) := by
+  rw [endian_generated, Layout.read_congr _ modelFileBlock_generated,
+    modelFileBlock_congr _ modelMemorySizes_u32_generated modelMemorySizes_u16_generated]
+  exact readModelFileBlock_eq_expected l
+
 
 theorem readLod_eq_generated (l : Bytes) :
     Dat.readLod l = via lodOf (Layout.read endian BinrwDat.textureLodBlock l) :=
